@@ -54,7 +54,7 @@ Example demo_rejections :
 Proof. vm_compute. reflexivity. Qed.
 
 (* ------------------------------------------------------------------ refutations: `_before_fix` about original_cfg (the code before
-   c5c2382 / dff454e), `C06_graphnew_refuted` about current_cfg (still open) *)
+   c5c2382 / dff454e), all sites of the model are repaired in /repo now (SGraphNew by 680d931) *)
 Definition changed (c : cfg) (pre : list op) (o : op) : bool :=
   let h := run c pre empty_heap in
   let '(h', r) := step c h o in
@@ -92,6 +92,6 @@ Theorem C06_rau_outputs_refuted_before_fix :
   changed original_cfg (w_pre ++ [IOAppend KOut 0 0]) (VReplaceAllUses 0 1 true) = true.
 Proof. vm_compute. reflexivity. Qed.
 Print Assumptions C06_rau_outputs_refuted_before_fix.
-Theorem C06_graphnew_refuted : changed current_cfg w_pre (GraphNew 2 [0; 1] [] [] []) = true.
+Theorem C06_graphnew_refuted_before_fix : changed original_cfg w_pre (GraphNew 2 [0; 1] [] [] []) = true.
 Proof. vm_compute. reflexivity. Qed.
-Print Assumptions C06_graphnew_refuted.
+Print Assumptions C06_graphnew_refuted_before_fix.
